@@ -622,9 +622,10 @@ def cumprod(x, axis=None, out=None, out_like=None, sizing='optimal', method='raw
         x = Fxp(x)
 
     signed = x.signed
-    n_word = x.size * x.n_word
-    n_frac = x.size * x.n_frac
-    n_int = n_word - int(signed) - n_frac
+    # every partial product has to fit: the first ones are the finest when n_frac is negative, and the largest when n_int is negative
+    n_frac = x.size * x.n_frac if x.n_frac >= 0 else x.n_frac
+    n_int = max(x.size * x.n_word - int(signed) - x.size * x.n_frac, x.n_int)
+    n_word = int(signed) + n_int + n_frac
     optimal_size = (signed, n_word, n_int, n_frac)
 
     kwargs['axis'] = axis
